@@ -250,6 +250,10 @@ impl Prop for C16 {
             if name == "let-in-binder-domain" {
                 // small slice, pushed further: a let as a binder's domain needs 13 tokens
                 v.push(sweep(&format!("parse results of sentences, slice {name}"), sg, 8, tier.pick(15, 17)));
+            } else if name == "applications" {
+                // parenthesised applicands and arguments that hold chains of their own: the printer drops
+                // parentheses around a left-nested applicand, which needs 13 tokens to show
+                v.push(sweep(&format!("parse results of sentences, slice {name}"), sg, tier.pick(8, 10), tier.pick(13, 14)));
             } else {
                 v.push(sweep(&format!("parse results of sentences, slice {name}"), sg, tier.pick(8, 10), tier.pick(11, 13)));
             }
@@ -259,7 +263,7 @@ impl Prop for C16 {
     fn evidence(&self, tier: Tier) -> EvidenceSpec {
         EvidenceSpec {
             level: "exploration",
-            rule: "every sentence of grammar.y up to the bounds (full alphabet, class alphabet, seven sub-grammar slices incl. all binder forms and let groups in annotation / domain positions) is parsed by the real parser — with simply named identifiers, and (class alphabet, binder forms, function types over definition groups) with every naming over a two-name pool so that variable uses refer to their own binders —; the resulting term is printed with its Display implementation, the text is tokenized and parsed again in the same scope, and the two terms must be equal up to names of unused function-type parameters and identity/shift of unresolved holes. non-trivial = sentences of at least 3 tokens that round-tripped".to_owned(),
+            rule: "every sentence of grammar.y up to the bounds (full alphabet, class alphabet, ten sub-grammar slices incl. all binder forms, let groups in annotation / domain positions, and application chains to 13/14 tokens) is parsed by the real parser — with simply named identifiers, and (class alphabet, binder forms, function types over definition groups) with every naming over a two-name pool so that variable uses refer to their own binders —; the resulting term is printed with its Display implementation, the text is tokenized and parsed again in the same scope, and the two terms must be equal up to names of unused function-type parameters and identity/shift of unresolved holes. non-trivial = sentences of at least 3 tokens that round-tripped".to_owned(),
             assumptions: vec!["only parser-produced terms are judged (printing of elaborated terms, where solved holes may repeat binder names, is outside the property)".to_owned()],
             evaluations: "evaluations",
             nontrivial: "nontrivial",
